@@ -87,6 +87,7 @@ type taskRun struct {
 	runs   atomic.Int32 // begins
 	ends   atomic.Int32
 	active atomic.Int32
+	subs   atomic.Int32  // submissions (Queue/QueuePrioritized/StartASAP/Schedule) called so far
 	block  chan struct{} // if non-nil: the first execution waits for it before returning
 }
 
@@ -111,6 +112,43 @@ type histRun struct {
 	notes   []string
 	supN    int
 	failed  string // harness-side problem: history is inconclusive
+
+	// online monitor: set by the task function as soon as a task has begun more often
+	// than submissions for it were *called* so far (every execution needs its own
+	// submission whose call precedes it, so this is a violation on any schedule), or
+	// when the logical execution/event cap of the history is exceeded. The history is
+	// then stopped (no quiescence needed) and decided on the log recorded so far.
+	abort    atomic.Bool
+	abortMu  sync.Mutex
+	abortWhy string
+	capped   bool
+}
+
+// logical (not wall-clock) caps of one history
+const (
+	maxRunsPerSubmission = 50
+	maxEventsPerHistory  = 200000
+)
+
+var noOnline = os.Getenv("VERIF_C07_NO_ONLINE") != "" // self-test of the watchdog path only
+
+func (hr *histRun) setAbort(capped bool, f string, a ...any) {
+	if noOnline {
+		return
+	}
+	hr.abortMu.Lock()
+	if hr.abortWhy == "" {
+		hr.abortWhy = fmt.Sprintf(f, a...)
+		hr.capped = capped
+	}
+	hr.abortMu.Unlock()
+	hr.abort.Store(true)
+}
+
+func (hr *histRun) aborted() (string, bool) {
+	hr.abortMu.Lock()
+	defer hr.abortMu.Unlock()
+	return hr.abortWhy, hr.capped
 }
 
 const (
@@ -240,6 +278,10 @@ func (hr *histRun) do(client string, in int, o Op) {
 	tr := hr.tasks[o.Task]
 	id := int(hr.opID.Add(1))
 	switch o.Kind {
+	case opQueue, opQueueP, opASAP, opSchedule:
+		tr.subs.Add(1) // before the call is issued: in-flight submissions count
+	}
+	switch o.Kind {
 	case opQueue:
 		hr.log.rec(Ev{K: "call", C: client, Op: o.Kind, Task: o.Task, ID: id, In: in})
 		tr.t.Queue()
@@ -272,7 +314,19 @@ func (tr *taskRun) fn(ctx context.Context, _ *modules.Task) error {
 	hr := tr.hr
 	tr.active.Add(1)
 	run := int(tr.runs.Add(1))
-	hr.log.rec(Ev{K: "begin", Task: tr.idx, Run: run, T: rel(bt), Done: ctx.Err() != nil})
+	seq := hr.log.rec(Ev{K: "begin", Task: tr.idx, Run: run, T: rel(bt), Done: ctx.Err() != nil})
+	if sc := int(tr.subs.Load()); run > sc {
+		hr.setAbort(false, "task t%d began execution #%d although only %d submissions had been called for it", tr.idx, run, sc)
+	} else if run > maxRunsPerSubmission*sc+maxRunsPerSubmission || seq > maxEventsPerHistory {
+		hr.setAbort(true, "logical cap of the history exceeded (task t%d execution #%d, %d submissions, event %d)", tr.idx, run, sc, seq)
+	}
+	if hr.abort.Load() {
+		// the history is being stopped: no further calls from inside, no run time
+		hr.log.rec(Ev{K: "end", Task: tr.idx, Run: run})
+		tr.active.Add(-1)
+		tr.ends.Add(1)
+		return nil
+	}
 	for _, o := range tr.spec.Inner[run] {
 		hr.do(fmt.Sprintf("in:%d#%d", tr.idx, run), tr.idx+1, o)
 	}
@@ -317,11 +371,16 @@ func (w *world) newHist(h *Hist) *histRun {
 	return hr
 }
 
-func waitFor(d time.Duration, cond func() bool) bool {
+func waitFor(d time.Duration, cond func() bool) bool { return waitForAbort(nil, d, cond) }
+
+func waitForAbort(abort *atomic.Bool, d time.Duration, cond func() bool) bool {
 	dl := time.Now().Add(d)
 	for i := 0; ; i++ {
 		if cond() {
 			return true
+		}
+		if abort != nil && abort.Load() {
+			return false
 		}
 		if time.Now().After(dl) {
 			return false
@@ -373,6 +432,9 @@ func (hr *histRun) quiesce(limit time.Duration, supervise bool) bool {
 	idleSeen := false
 	round := 0
 	for i := 0; ; i++ {
+		if hr.abort.Load() {
+			return false
+		}
 		s := hr.log.now()
 		if s != lastSeq {
 			lastSeq, lastChange = s, time.Now()
@@ -439,6 +501,9 @@ func (hr *histRun) runClients() {
 
 // result of one executed history
 type histResult struct {
+	Aborted   string // online monitor stopped the history (reason)
+	Capped    bool   // ... because of the logical cap, not because of runs > submissions
+	Partial   bool   // log of a history that was still running when the child's watchdog fired
 	Hist      *Hist
 	Events    []Ev
 	Quiescent bool
@@ -487,37 +552,45 @@ func (w *world) run(h *Hist) *histResult {
 	hr.pmu.Unlock()
 	waitFor(20*time.Second, hr.idle)
 	w.cur.Store(nil)
-	return &histResult{Hist: h, Events: evs, Quiescent: quiet, Failed: hr.failed, Notes: hr.notes, SupCancel: hr.supN,
-		WallMs: time.Since(t0).Milliseconds()}
+	why, capped := hr.aborted()
+	return &histResult{Hist: h, Events: evs, Quiescent: quiet && why == "", Failed: hr.failed, Notes: hr.notes, SupCancel: hr.supN,
+		WallMs: time.Since(t0).Milliseconds(), Aborted: why, Capped: capped}
 }
 
 func (hr *histRun) mark(name string) { hr.log.rec(Ev{K: "mark", Op: name, Task: -1}) }
 
 func (hr *histRun) waitBegin(task, n int) bool {
-	ok := waitFor(40*time.Second, func() bool { return int(hr.tasks[task].runs.Load()) >= n })
-	if !ok && hr.failed == "" {
+	ok := waitForAbort(&hr.abort, 40*time.Second, func() bool { return int(hr.tasks[task].runs.Load()) >= n })
+	if !ok && hr.failed == "" && !hr.abort.Load() {
 		hr.failed = fmt.Sprintf("task %d did not reach begin #%d within the watchdog", task, n)
 	}
 	return ok
 }
 
 func (hr *histRun) waitEnd(task, n int) bool {
-	ok := waitFor(40*time.Second, func() bool { return int(hr.tasks[task].ends.Load()) >= n })
-	if !ok && hr.failed == "" {
+	ok := waitForAbort(&hr.abort, 40*time.Second, func() bool { return int(hr.tasks[task].ends.Load()) >= n })
+	if !ok && hr.failed == "" && !hr.abort.Load() {
 		hr.failed = fmt.Sprintf("task %d did not reach end #%d within the watchdog", task, n)
 	}
 	return ok
 }
 
 func (hr *histRun) waitHit(p *park) bool {
-	select {
-	case <-p.hit:
-		return true
-	case <-time.After(40 * time.Second):
-		if hr.failed == "" {
-			hr.failed = "hook point was not reached within the watchdog"
+	dl := time.After(40 * time.Second)
+	for {
+		select {
+		case <-p.hit:
+			return true
+		case <-dl:
+			if hr.failed == "" {
+				hr.failed = "hook point was not reached within the watchdog"
+			}
+			return false
+		case <-time.After(5 * time.Millisecond):
+			if hr.abort.Load() {
+				return false
+			}
 		}
-		return false
 	}
 }
 
@@ -659,4 +732,16 @@ func vlibPickKind(hr *histRun) string {
 	hr.rmu.Lock()
 	defer hr.rmu.Unlock()
 	return vlib.Pick(hr.rnd, opQueue, opQueueP, opASAP)
+}
+
+// partial returns what the running history recorded so far (used when the child's
+// watchdog fires: the log is analysed instead of being thrown away).
+func (w *world) partial() *histResult {
+	hr := w.cur.Load()
+	if hr == nil {
+		return nil
+	}
+	why, capped := hr.aborted()
+	return &histResult{Hist: hr.h, Events: hr.log.snapshot(), Quiescent: false, Partial: true, Aborted: why, Capped: capped,
+		Failed: "the child's watchdog fired while this history was running; its partial event log was analysed"}
 }
